@@ -31,6 +31,25 @@ Theorem C12_reachability_refuted :
 Proof. exact hnsw_reachable_refuted. Qed.
 Print Assumptions C12_reachability_refuted.
 
+(** whatever the graph (any history, any levels, any removals): every reported pair is a vertex that is
+    not soft-deleted, scored with its true distance to the preprocessed query, inside the id restriction
+    and the threshold; the list is sorted by score and cut to at most k (C02's clause for HNSW) *)
+From Comet Require Import Proofs.SortingP Proofs.HNSWSoundP.
+Theorem C12_results_sound : forall cfg s rq ef q o x,
+  hsearch_single cfg s rq ef q = Ok o -> In x (so_full o) ->
+  exists pq, preprocess (hc_metric cfg) q = Some pq /\
+    snd x = dist (hc_metric cfg) pq (hvec s (fst x)) /\ deleted s (fst x) = false /\
+    (match r_docids rq with [] => True | ds => memz (fst x) ds = true end) /\ thr_ok rq (snd x) = true.
+Proof. exact hnsw_results_sound. Qed.
+Print Assumptions C12_results_sound.
+
+Theorem C12_results_sorted_and_cut : forall cfg s rq ef q o,
+  hsearch_single cfg s rq ef q = Ok o ->
+  Sorted.StronglySorted (le_key (fun p : Z * Z => F32.key (snd p))) (so_full o) /\
+  (so_cut o <= length (so_full o))%nat /\ (0 < r_k rq -> Z.of_nat (so_cut o) <= r_k rq).
+Proof. exact hnsw_results_sorted_cut. Qed.
+Print Assumptions C12_results_sorted_and_cut.
+
 Example C12_unreachable_vertex_is_missed :
   let missing := map n_id (filter (fun n => negb (memz (n_id n) (reachable0 h12))) (hs_nodes h12)) in
   missing <> [] /\
